@@ -246,16 +246,16 @@ package nitro
 
 //@ func (*Iterator).skipUnwanted
 //@ props C09 C01
-//@ requires wfIter(it) && positioned(it.iter) && it.iter.count < 2305843009213693952 && it.iter.smrInterval == 18446744073709551615
+//@ requires wfIter(it) && positioned(it.iter) && it.iter.smrInterval == 18446744073709551615
 //@ modifies it.count, it.iter.valid, it.iter.prev, it.iter.curr, it.iter.ix, it.iter.count, it.iter.deleted
 //@ loop 1 invariant wfIter(it) && positioned(it.iter) && old(it.iter.ix) <= it.iter.ix && it.iter.smrInterval == 18446744073709551615
-//@ loop 1 invariant it.iter.count == old(it.iter.count) + (it.iter.ix - old(it.iter.ix)) && it.count == old(it.count) + (it.iter.ix - old(it.iter.ix))
+//@ loop 1 invariant it.count == old(it.count) + (it.iter.ix - old(it.iter.ix))
 //@ loop 1 invariant forall j int {it.snap.db.store.phys[j]} :: old(it.iter.ix) <= j && j < it.iter.ix ==> !visAt(it, j)
 //@ loop 1 decreases it.snap.db.store.n - it.iter.ix
 //@ ensures[positioned] wfIter(it) && positioned(it.iter)
 //@ ensures[visible] it.iter.ix == it.snap.db.store.n || visAt(it, it.iter.ix)
 //@ ensures[skipped] old(it.iter.ix) <= it.iter.ix && (forall j int {it.snap.db.store.phys[j]} :: old(it.iter.ix) <= j && j < it.iter.ix ==> !visAt(it, j))
-//@ ensures[count] it.count == old(it.count) + (it.iter.ix - old(it.iter.ix)) && it.iter.count == old(it.iter.count) + (it.iter.ix - old(it.iter.ix))
+//@ ensures[count] it.count == old(it.count) + (it.iter.ix - old(it.iter.ix)) && it.iter.smrInterval == 18446744073709551615
 //@ nopanic
 
 // a copy of the bytes of an existing item has the same key as that item (keys depend on the bytes only)
@@ -280,7 +280,7 @@ package nitro
 
 //@ pure firstVisibleFrom(it *Iterator, lo int) bool = lo <= it.iter.ix && it.iter.ix <= it.snap.db.store.n &&
 //@     (it.iter.ix == it.snap.db.store.n || visAt(it, it.iter.ix)) && (forall j int {it.snap.db.store.phys[j]} :: lo <= j && j < it.iter.ix ==> !visAt(it, j))
-//@ pure fresh61(it *Iterator) bool = it.iter.count < 2305843009213693952 && it.iter.smrInterval == 18446744073709551615
+//@ pure fresh61(it *Iterator) bool = it.iter.smrInterval == 18446744073709551615
 
 //@ func (*Iterator).SeekFirst
 //@ props C09 C01
@@ -288,7 +288,7 @@ package nitro
 //@ modifies it.count, it.iter.valid, it.iter.prev, it.iter.curr, it.iter.ix, it.iter.count, it.iter.deleted
 //@ ensures[positioned] wfIter(it) && positioned(it.iter)
 //@ ensures[first-visible] firstVisibleFrom(it, 0)
-//@ ensures[steps] it.iter.count - it.iter.ix == old(it.iter.count) && it.iter.smrInterval == 18446744073709551615
+//@ ensures[steps] it.iter.smrInterval == 18446744073709551615
 //@ nopanic
 
 //@ func (*Iterator).Valid
@@ -333,7 +333,8 @@ package nitro
 //@ ensures[visible] it.iter.ix == it.snap.db.store.n || (visAt(it, it.iter.ix) && kc(itmAt(it.snap.db, it.iter.ix), it.probe) >= 0)
 //@ ensures[smallest] forall j int {it.snap.db.store.phys[j]} :: 0 <= j && j < it.iter.ix ==> kc(itmAt(it.snap.db, j), it.probe) < 0 || !visAt(it, j)
 //@ ensures[probe-key] sameKeyAsView(it.probe, bs)
-//@ ensures[steps] it.iter.count - it.iter.ix <= old(it.iter.count) && it.iter.smrInterval == 18446744073709551615
+//@ ensures[mem-frame] forall a int {mem8(a)} :: a < old(brk()) ==> mem8(a) == old(mem8(a))
+//@ ensures[steps] it.iter.smrInterval == 18446744073709551615
 //@ nopanic
 
 //@ pure bufOK(it *Iterator) bool = it.buf != nil && len(it.buf.preds) >= 1 && len(it.buf.succs) >= 1
@@ -349,18 +350,22 @@ package nitro
 //@ modifies it.iter, it.count, it.iter.valid, it.buf.pos, elems(it.buf.preds), elems(it.buf.succs), it.snap.db.store.Stats.readConflicts, heap($alive), heap($brk), mem(uint8)
 //@ ensures[wf] wfIter(it) && positioned(it.iter) && bufOK(it)
 //@ ensures[pos] it.iter.ix == old(it.iter.ix)
-//@ ensures[steps] (it.iter.count - it.iter.ix <= 0 || it.iter.count == old(it.iter.count)) && it.iter.smrInterval == 18446744073709551615
+//@ ensures[iter-fresh] it.iter == old(it.iter) || it.iter >= old(brk())
+//@ ensures[mem-frame] forall a int {mem8(a)} :: a < old(brk()) ==> mem8(a) == old(mem8(a))
+//@ ensures[steps] it.iter.smrInterval == 18446744073709551615
 //@ nopanic
 
 //@ func (*Iterator).Next
 //@ props C09 C01 C10
-//@ requires wfIter(it) && positioned(it.iter) && bufOK(it) && it.iter.count < 1152921504606846976 && it.iter.smrInterval == 18446744073709551615
+//@ requires wfIter(it) && positioned(it.iter) && bufOK(it) && it.iter.smrInterval == 18446744073709551615
 //@ requires it.iter.ix < it.snap.db.store.n
 //@ modifies it.iter, it.count, it.iter.valid, it.iter.prev, it.iter.curr, it.iter.ix, it.iter.count, it.iter.deleted
 //@ modifies it.buf.pos, elems(it.buf.preds), elems(it.buf.succs), it.snap.db.store.Stats.readConflicts, heap($alive), heap($brk), mem(uint8)
 //@ ensures[wf] wfIter(it) && positioned(it.iter) && bufOK(it)
 //@ ensures[next-visible] firstVisibleFrom(it, old(it.iter.ix) + 1)
-//@ ensures[steps] (it.iter.count - it.iter.ix <= 0 || it.iter.count - it.iter.ix == old(it.iter.count - it.iter.ix)) && it.iter.smrInterval == 18446744073709551615
+//@ ensures[iter-fresh] it.iter == old(it.iter) || it.iter >= old(brk())
+//@ ensures[mem-frame] forall a int {mem8(a)} :: a < old(brk()) ==> mem8(a) == old(mem8(a))
+//@ ensures[steps] it.iter.smrInterval == 18446744073709551615
 //@ nopanic
 
 // ---------------------------------------------------------------------------
@@ -386,8 +391,8 @@ package nitro
 //@ ensures[nil-iff] result == nil <==> old(snap.refCount) == 0
 //@ ensures[ref] result != nil ==> snap.refCount == old(snap.refCount) + 1
 //@ ensures[no-ref] result == nil ==> snap.refCount == old(snap.refCount)
-//@ ensures[wf] result != nil ==> wfIter(result) && bufOK(result) && result.snap == snap && result.buf == result.iter.buf && result >= old(brk())
-//@ ensures[buf-fresh] result != nil ==> bufAbove(result, old(brk()))
+//@ ensures[wf] result != nil ==> wfIter(result) && bufOK(result) && result.snap == snap && result.buf == result.iter.buf && result >= old(brk()) && result.iter >= old(brk()) && result.buf >= old(brk())
+//@ ensures[buf-fresh] result != nil ==> bufAbove(result, old(brk())) && ptr(result.buf.preds) + 8 * len(result.buf.preds) <= brk() && ptr(result.buf.succs) + 8 * len(result.buf.succs) <= brk()
 //@ ensures[fresh-iter] result != nil ==> result.iter.count == 0 && result.iter.smrInterval == 18446744073709551615 && !result.iter.deleted && result.count == 0 && result.refreshRate == 0
 //@ nopanic
 
@@ -395,6 +400,7 @@ package nitro
 //@ trusted drops the snapshot reference and the barrier session; collection side effects are specified under C06/C08
 //@ requires it != nil
 //@ modifies it.snap.refCount
+//@ ensures it.snap.refCount == old(it.snap.refCount) - 1
 
 // The shard worker. For the shard value received from the work channel the callback is invoked on items of phys
 // at strictly increasing indices, each visible in the snapshot, with keys in [start pivot, end pivot), skipping no
@@ -408,7 +414,7 @@ package nitro
 //@ requires len(errors) == len(pivotItems) - 1
 //@ requires[pivots] (forall k int {pivotItems[k]} :: 0 <= k && k < len(pivotItems) && pivotItems[k] != nil ==> pivotItems[k] < 72057594037927936) && ptr(pivotItems) + 8 * len(pivotItems) <= brk()
 //@ recv k assume 0 <= k && k + 1 < len(pivotItems) && nShards - old(nShards) < 1000000000
-//@ modifies *
+//@ modifies snap.refCount, m.store.Stats.readConflicts, elems(errors), cbN, heap($g.cbItem), heap($g.cbShard), heap($g.dIdx), shardBase, nShards, heap($alive), heap($brk)
 //@ at-call type:nitro.VisitorCallback dIdx[cbN] := itr.iter.ix
 //@ at-call (*nitro.Nitro).NewIterator shardBase := cbN
 //@ at-call (*nitro.Nitro).NewIterator nShards := nShards + 1
@@ -417,16 +423,47 @@ package nitro
 //@ loop 1 invariant[ctx] m != nil && snap != nil && snap.db == m && wfStore(m)
 //@ loop 1 invariant[refs] snap.refCount == old(snap.refCount) + (nShards - old(nShards)) && nShards >= old(nShards) && nShards - old(nShards) <= 1000000000
 //@ loop 1 invariant[sep] ptr(pivotItems) + 8 * len(pivotItems) <= old(brk()) && len(errors) == len(pivotItems) - 1
-//@ loop 1 invariant[pivots] (forall k int {pivotItems[k]} :: 0 <= k && k < len(pivotItems) && pivotItems[k] != nil ==> pivotItems[k] < 72057594037927936)
 //@ loop 2 invariant[ctx] m != nil && snap != nil && snap.db == m && 0 <= shard && shard + 1 < len(pivotItems) && startItem == pivotItems[shard] && endItem == pivotItems[shard + 1]
 //@ loop 2 invariant[iter] itr != nil && wfIter(itr) && positioned(itr.iter) && bufOK(itr) && itr.snap == snap
+//@ loop 2 invariant[fresh] itr >= old(brk()) && itr.iter >= old(brk()) && itr.buf >= old(brk())
 //@ loop 2 invariant[sep] bufAbove(itr, old(brk())) && ptr(pivotItems) + 8 * len(pivotItems) <= old(brk()) && len(errors) == len(pivotItems) - 1
-//@ loop 2 invariant[steps] itr.iter.count - itr.iter.ix <= 0 && itr.iter.smrInterval == 18446744073709551615
-//@ loop 2 invariant[pivots] (forall k int {pivotItems[k]} :: 0 <= k && k < len(pivotItems) && pivotItems[k] != nil ==> pivotItems[k] < 72057594037927936)
+//@ loop 2 invariant[steps] itr.iter.smrInterval == 18446744073709551615
 //@ loop 2 invariant[refs] snap.refCount == old(snap.refCount) + (nShards - old(nShards)) && nShards >= old(nShards) && nShards - old(nShards) <= 1000000000
 //@ loop 2 invariant[visible] itr.iter.ix == m.store.n || (visAt(itr, itr.iter.ix) && (startItem != nil ==> kc(itmAt(m, itr.iter.ix), startItem) >= 0))
 //@ loop 2 invariant[log] cbN >= shardBase && (forall k int {dIdx[k]} :: shardBase <= k && k < cbN ==> 0 <= dIdx[k] && dIdx[k] < itr.iter.ix && cbItem[k] == itmAt(m, dIdx[k]) && cbShard[k] == shard &&
 //@        visAt(itr, dIdx[k]) && (startItem != nil ==> kc(itmAt(m, dIdx[k]), startItem) >= 0) && (endItem != nil ==> kc(itmAt(m, dIdx[k]), endItem) < 0))
 //@ loop 2 invariant[ascending] forall k, k2 int {dIdx[k], dIdx[k2]} :: shardBase <= k && k < k2 && k2 < cbN ==> dIdx[k] < dIdx[k2]
 //@ loop 2 invariant[no-gap] forall j int {m.store.phys[j]} :: (cbN > shardBase ==> dIdx[cbN - 1] < j) && (cbN == shardBase ==> 0 <= j) && j < itr.iter.ix && visAt(itr, j) ==> (startItem != nil && kc(itmAt(m, j), startItem) < 0)
+//@ nopanic
+
+//@ callback-field Config.insCmp(fn ref, a ref, b ref) r int
+//@ pure-call
+//@ ensures r == insc(cast(*Item, a), cast(*Item, b)) && r == cmpf(fn, a, b)
+
+//@ callback-field Config.iterCmp(fn ref, a ref, b ref) r int
+//@ pure-call
+//@ ensures r == kc(a, b) && r == cmpf(fn, a, b)
+
+//@ pure pivotsOK(ps []*Item) bool = len(ps) >= 1 && ps[0] == nil && ptr(ps) + 8 * cap(ps) <= brk() &&
+//@     (forall k int {ps[k]} :: 1 <= k && k < len(ps) ==> ps[k] != nil && ps[k] < 72057594037927936)
+
+// Pivot selection: pivotItems = [nil, p1 .. pk, nil] with p1 < p2 < .. under (key, bornSn), hence keys non-decreasing.
+//@ func (*Nitro).Visitor$1
+//@ props C10
+//@ use sl-globals
+//@ requires m != nil && snap != nil && snap.db == m && wfStore(m) && snap.refCount > 0 && snap.refCount < 1000000000 && len(pivotItems) == 0 && cap(pivotItems) == 0
+//@ modifies *
+//@ loop 1 invariant[ctx] m != nil && snap != nil && snap.db == m && wfStore(m) && tmpIter != nil && wfIter(tmpIter) && bufOK(tmpIter) && tmpIter.snap == snap && !tmpIter.iter.deleted && fresh61(tmpIter)
+//@ loop 1 invariant[ptrs] -1 <= rangeindex && rangeindex < len(pivotPtrs) && (forall k int {pivotPtrs[k]} :: 0 <= k && k < len(pivotPtrs) ==> pivotPtrs[k] != nil) &&
+//@     (len(pivotPtrs) == 0 || ptr(pivotPtrs) + 8 * len(pivotPtrs) <= brk())
+//@ loop 1 invariant[sep] bufAbove(tmpIter, old(brk())) && (len(pivotPtrs) == 0 || ptr(pivotPtrs) >= old(brk())) &&
+//@     (len(pivotPtrs) == 0 || ptr(pivotItems) + 8 * cap(pivotItems) <= ptr(pivotPtrs) || ptr(pivotItems) >= ptr(pivotPtrs) + 8 * len(pivotPtrs)) &&
+//@     ptr(tmpIter.buf.preds) + 8 * len(tmpIter.buf.preds) <= ptr(pivotItems) && ptr(tmpIter.buf.succs) + 8 * len(tmpIter.buf.succs) <= ptr(pivotItems) &&
+//@     (len(pivotPtrs) == 0 || (ptr(tmpIter.buf.preds) + 8 * len(tmpIter.buf.preds) <= ptr(pivotPtrs) && ptr(tmpIter.buf.succs) + 8 * len(tmpIter.buf.succs) <= ptr(pivotPtrs)))
+//@ loop 1 invariant[pivots] pivotsOK(pivotItems)
+//@ loop 1 invariant[ascending] forall k, k2 int {pivotItems[k], pivotItems[k2]} :: 1 <= k && k2 == k + 1 && k2 < len(pivotItems) ==> insc(pivotItems[k], pivotItems[k2]) < 0
+//@ ensures[shape] len(pivotItems) >= 2 && pivotItems[0] == nil && pivotItems[len(pivotItems) - 1] == nil && ptr(pivotItems) + 8 * cap(pivotItems) <= brk()
+//@ ensures[middle] forall k int {pivotItems[k]} :: 1 <= k && k + 1 < len(pivotItems) ==> pivotItems[k] != nil && pivotItems[k] < 72057594037927936
+//@ ensures[ascending] forall k, k2 int {pivotItems[k], pivotItems[k2]} :: 1 <= k && k2 == k + 1 && k2 + 1 < len(pivotItems) ==> insc(pivotItems[k], pivotItems[k2]) < 0
+//@ ensures[store] wfStore(m) && snap.db == m
 //@ nopanic
